@@ -438,7 +438,7 @@ impl Ctx {
                 csv(&step.bombs),
                 if post_cap == usize::MAX { 0 } else { post_cap }
             );
-            if !zst && (!step.op.modelled() || (spec.kind == Kind::Rev && matches!(step.op, Op::ResizeWith(_) | Op::PopIf))) {
+            if !zst && !step.op.modelled() {
                 // checked by the oracles only; the model is re-synchronised with what the vector holds now
                 let _ = writeln!(
                     self.out,
